@@ -990,6 +990,7 @@ func main() {
 	}
 	repo, outdir := os.Args[1], os.Args[2]
 	load(repo)
+	restoreFuncNames()
 	restoreNames()
 	inlineExtractedHelpers()
 	loadConsts()
